@@ -25,8 +25,9 @@ Interp(form) == form \in {"istr", "iraw"}
 Legal(form, seg) ==
   CASE seg[1] = "ch"   -> (CASE form = "str"  -> seg[2] \notin {"bsl", "dq", "nl"}
                              [] form = "raw"  -> seg[2] # "bt"
-                             [] form = "istr" -> seg[2] \notin {"bsl", "dq", "nl", "lb", "rb"}
-                             [] form = "iraw" -> seg[2] \notin {"bt", "lb", "rb"})
+                             \* (an opening brace starts a hole; a closing brace outside a hole is ordinary text, also doubled)
+                             [] form = "istr" -> seg[2] \notin {"bsl", "dq", "nl", "lb"}
+                             [] form = "iraw" -> seg[2] \notin {"bt", "lb"})
     [] seg[1] = "esc"  -> form \in {"str", "istr"} /\ seg[2] \in {"n", "t", "bsl", "dq"}
     [] seg[1] = "bres" -> form = "istr" /\ seg[2] \in {"lb", "rb"}
     [] seg[1] = "hole" -> Interp(form)
